@@ -13,7 +13,7 @@ PROFILES = {
     #            new set  get obs  bindI bindE reset del  move evall bev  hold  unobs  fault
     'C03': dict(new=8, set=50, get=4, obs=14, bindI=6, bindE=0, reset=1, dele=2, move=3, evall=0, bev=0, hold=0, unobs=3, fault=0, user=0),
     'C02': dict(new=8, set=40, get=4, obs=8, bindI=18, bindE=0, reset=2, dele=1, move=8, evall=0, bev=0, hold=0, unobs=1, fault=0, user=0),
-    'C06': dict(new=8, set=34, get=4, obs=8, bindI=2, bindE=16, reset=3, dele=2, move=2, evall=14, bev=4, hold=2, unobs=1, fault=0, user=0),
+    'C06': dict(obsreset=0.3, new=8, set=34, get=4, obs=8, bindI=2, bindE=16, reset=3, dele=2, move=2, evall=14, bev=4, hold=2, unobs=1, fault=0, user=0),
     'C07': dict(new=6, set=30, get=6, obs=8, bindI=12, bindE=8, reset=10, dele=1, move=2, evall=6, bev=2, hold=0, unobs=1, fault=8, user=0),
     'C10': dict(new=8, set=24, get=4, obs=8, bindI=12, bindE=8, reset=2, dele=14, move=3, evall=6, bev=4, hold=5, unobs=2, fault=0, user=0),
     'C11': dict(new=8, set=28, get=4, obs=10, bindI=12, bindE=4, reset=1, dele=3, move=22, evall=4, bev=2, hold=0, unobs=1, fault=0, user=0),
@@ -118,7 +118,11 @@ class Gen:
         self.next_obs += 1
         self.obs.append(h)
         tgt = [q for q, d in self.props.items() if d['rank'] > self.props[p]['rank'] and not d['bound']]
-        if tgt and k != 2 and self.r.random() < self.p.get('obsset', 0.25):
+        rt = [q for q, d in self.props.items() if d['bound'] and d['rank'] > self.props[p]['rank']]
+        if rt and k != 2 and self.r.random() < self.p.get('obsreset', 0.0):
+            q = self.r.choice(rt)
+            self.emit(f"pobsreset {p} {k} {lab} {h} {q}")
+        elif tgt and k != 2 and self.r.random() < self.p.get('obsset', 0.25):
             self.emit(f"pobsset {p} {k} {lab} {h} {self.r.choice(tgt)}")
         else:
             self.emit(f"pobs {p} {k} {lab} {h}")
@@ -252,7 +256,7 @@ class Gen:
         fam = dict(new=self.op_new, set=self.op_set, get=self.op_get, obs=self.op_obs, bindI=self.op_bindI,
                    bindE=self.op_bindE, reset=self.op_reset, dele=self.op_dele, move=self.op_move, evall=self.op_evall,
                    bev=self.op_bev, hold=self.op_hold, unobs=self.op_unobs, fault=self.op_fault, user=self.op_user)
-        names = [k for k, v in self.p.items() if v > 0]
+        names = [k for k, v in self.p.items() if v > 0 and k in fam]
         weights = [self.p[k] for k in names]
         guard = 0
         start = len(self.lines)
